@@ -496,6 +496,12 @@ def coq_vf(case, got):
 API_VERSION, KIND = "c12.example.dev/v1", "Gadget"
 
 
+def kind_of(case):
+    # kr8s registers one class per (apiVersion, kind) for the life of the process, so the
+    # cluster-scoped variant needs its own kind
+    return KIND if case["namespace"] is not None else "ClusterGadget"
+
+
 def skip_text(sk):
     if sk is None:
         return None
@@ -505,7 +511,7 @@ def skip_text(sk):
 
 
 def rf_spec(case):
-    spec = {"apiConfig": {"apiVersion": API_VERSION, "kind": KIND, "plural": "gadgets",
+    spec = {"apiConfig": {"apiVersion": API_VERSION, "kind": kind_of(case), "plural": kind_of(case).lower() + "s",
                           "name": case["name"], "owned": case.get("owned", False)}}
     if case["namespace"] is not None:
         spec["apiConfig"]["namespace"] = case["namespace"]
@@ -541,7 +547,7 @@ def forced_of(case):
     md = {"name": case["name"]}
     if case["namespace"] is not None:
         md["namespace"] = case["namespace"]
-    return {"apiVersion": API_VERSION, "kind": KIND, "metadata": md}
+    return {"apiVersion": API_VERSION, "kind": kind_of(case), "metadata": md}
 
 
 def last_applied(body):
@@ -643,7 +649,7 @@ def _run_rf(R, case):
         created = []
 
         class FakeObject:
-            version, kind, namespaced = API_VERSION, KIND, case["namespace"] is not None
+            version, kind, namespaced = API_VERSION, kind_of(case), case["namespace"] is not None
 
             def __init__(self, api, resource, namespace):
                 created.append(resource)
@@ -652,22 +658,34 @@ def _run_rf(R, case):
                 return None
         owner = (case["namespace"], {"apiVersion": "v1", "kind": "Owner", "name": "o", "uid": "uid-1",
                                      "blockOwnerDeletion": True, "controller": False})
+        # observe the materialised view exactly where koreo hands it to the API layer
+        views, orig = [], rfr._prepare_for_api
+
+        def spy(obj):
+            views.append(copy.deepcopy(obj))
+            return orig(obj)
+        rfr._prepare_for_api = spy
         try:
             r = R.run(rfr._create_api_resource(api=None, resource_api=FakeObject, namespace=case["namespace"],
                                                create=cfg.create, owned_resource=case.get("owned", False), owner=owner,
                                                inputs=inputs, resource_view=tgt, forced_overlay=forced,
                                                full_resource_name="c12"))
+            res["create"] = outcome(r)
         except Exception as e:  # noqa: BLE001
             res["create"] = ["Raised", type(e).__name__]
-            return res
+        finally:
+            rfr._prepare_for_api = orig
+        if views:
+            view = plain(views[0])
+            if case.get("owned", False) and isinstance(view.get("metadata"), dict):
+                view["metadata"].pop("ownerReferences", None)      # C08's subject, not part of the merge
+            res["create"] = ["Done", view]
         if created:
             res["body"] = plain(created[0])
             la = last_applied(res["body"])
             if case.get("owned", False) and isinstance(la, dict) and isinstance(la.get("metadata"), dict):
-                la["metadata"].pop("ownerReferences", None)      # C08's subject, not part of the merge
-            res["create"] = ["Done", la]
-        else:
-            res["create"] = outcome(r)
+                la["metadata"].pop("ownerReferences", None)
+            res["recorded"] = la
         return res
 
     inputs = fresh_inputs()
@@ -705,9 +723,11 @@ def _run_rf(R, case):
     return got
 
 
-def ref_rf(case, forced_first=True):
-    """reference: base, forced overlay, each non-skipped overlay in order, forced overlay;
-    then create.overlay and the forced overlay once more.  -> (template, target, create)"""
+def ref_rf(case, forced_first=True, forced_last=True, forced_create=True):
+    """reference: base, [forced overlay], each non-skipped overlay in listed order, [forced overlay];
+    then create.overlay and [the forced overlay once more].  -> (template, target, create).
+    The property text does not mention the forced (apiConfig identity) overlay at all — that is
+    property C06 — so every combination of applying it or not is an accepted reading."""
     env = dict(case["env"])
     forced = forced_of(case)
     t = case["template"]
@@ -718,8 +738,8 @@ def ref_rf(case, forced_first=True):
         if not isinstance(name, str) or name not in case["templates"]:
             raise RefUndefined("template")
         base = case["templates"][name]
-    tmpl = ref_merge_val(base, forced)
-    cur = tmpl if forced_first else base
+    tmpl = ref_merge_val(base, forced) if forced_first else base
+    cur = tmpl
     for s in case["steps"]:
         if s["skip"] is not None:
             sk = ref_eval(s["skip"], env)
@@ -732,30 +752,34 @@ def ref_rf(case, forced_first=True):
         else:
             vin = ref_eval(["m", s["inputs"]], env) if s["inputs"] else None
             cur = ref_vf(s["f"], vin, cur)
-    target = ref_merge_val(cur, forced) if case["steps"] or not forced_first else cur
+        if not isinstance(cur, dict):
+            raise RefUndefined("non-map target")
+    target = ref_merge_val(cur, forced) if forced_last else cur
     cv = target
     if case["create"]:
         cv = ref_merge(target, ["m", case["create"]], {**env, "resource": target})
-    return tmpl, target, ref_merge_val(cv, forced)
+    return tmpl, target, (ref_merge_val(cv, forced) if forced_create else cv)
 
 
 def oracle_rf(case, got):
     if got["prepared"] != "ok":
         return ("rf: function failed to prepare", f"preparation gave {got['prepared']}", None)
     if got["changed"]:
-        kinds = sorted({c.split(" ")[0] + (" " + c.split(" ")[1] if c.startswith(("cached", "prepared")) else "") for c in got["changed"]})
+        kinds = sorted({" ".join(c.split(" ")[:2]) if c.startswith(("cached", "prepared")) else c for c in got["changed"]})
         return ("purity: materialising the target modified " + "/".join(kinds),
                 "the pipeline modified " + ", ".join(got["changed"]), None)
     if got["obs"] != got["again"]:
         return ("purity: materialising twice gives different results", "second evaluation with equal inputs differs", got["obs"])
     wants = []
-    for ff in (True, False):
+    for flags in itertools.product((True, False), repeat=3):
         try:
-            wants.append(ref_rf(case, ff))
+            wants.append(ref_rf(case, *flags))
         except RefUndefined:
-            return None
-        except Exception:  # noqa: BLE001  (reference stepping outside its domain, e.g. non-map result)
-            return None
+            if flags == (True, True, True):
+                return None          # the reference cannot evaluate a leaf under the code's own reading: no claim
+        except Exception:  # noqa: BLE001  (reference stepping outside its domain)
+            if flags == (True, True, True):
+                return None
     o = got["obs"]
     if o["target"][0] != "Done":
         return (f"rf: evaluable pipeline gives {o['target'][0]}", f"everything evaluates but the target is {o['target']}", wants[0][1])
@@ -766,11 +790,14 @@ def oracle_rf(case, got):
         return (f"rf: evaluable create gives {o['create'][0]}", f"create path gives {o['create']}", wants[0][2])
     if not any(same(o["create"][1], w[2]) for w in wants):
         return ("rf: created object is not the target + create.overlay deep-merged",
-                "POST body's recorded target differs from the reference", wants[0][2])
+                "the view handed to the API differs from the reference", wants[0][2])
+    if o.get("recorded") is not None and not any(same(o["recorded"], w[2]) for w in wants):
+        return ("rf: last-applied annotation of the POST body is not the reference merge",
+                "the target recorded in the created object differs from the reference", wants[0][2])
     rec = got.get("reconcile")
     if rec is not None:
-        if rec["outcome"].startswith("Raised"):
-            return ("rf: reconcile_resource_function raised", f"reconcile raised {rec['outcome']}", None)
+        # an exception leaving reconcile (e.g. metadata.annotations overlaid with a non-map makes
+        # _prepare_for_api raise TypeError) is outside C12: counted in the distribution, not judged here
         if rec["posts"] == 1:
             tgt = rec["target"]
             if isinstance(tgt, dict) and isinstance(tgt.get("metadata"), dict):
@@ -808,7 +835,7 @@ def coq_rf(case, got):
 # generators
 # ---------------------------------------------------------------------------
 
-KEYS = ["a", "b", "c", "d", "k.dot", "x-y", "spec", "metadata"]
+KEYS = ["a", "b", "c", "d", "k.dot", "x-y", "spec", "metadata", "Cap"]
 ID_KEYS = ["name", "namespace", "labels", "apiVersion", "kind"]
 IN_KEYS = ["a", "b", "c", "flag", "k.dot", "m", "name"]
 STRS = ["v", "str", "two words", "", "x.y", "UPPER", "é"]
@@ -950,34 +977,31 @@ def g_ov_case(rng):
     return {"kind": "ov", "base": base, "spec": spec, "env": env}
 
 
-def g_deep_case(rng):
-    res = g_map(rng, 4, KEYS, 4)
-    ov = {}
-    for _ in range(rng.randrange(0, 4)):
-        k = rng.choice(list(res) or KEYS) if rng.random() < 0.6 else rng.choice(KEYS)
-        bv = res.get(k)
-        r = rng.random()
-        if isinstance(bv, dict) and r < 0.6:
-            ov[k] = g_deep_case_sub(rng, bv, 3)
-        elif r < 0.75:
-            ov[k] = g_json(rng, 2)
-        elif r < 0.85:
-            ov[k] = {}
-        else:
-            ov[k] = g_map(rng, 2)
-    return {"kind": "deep", "resource": res, "overlay": ov}
-
-
-def g_deep_case_sub(rng, bv, depth):
+def g_nested(rng, depth, keys=KEYS):
+    """a map that is mostly maps (so that map-over-map recursion goes deep)"""
     out = {}
-    for _ in range(rng.randrange(0, 3)):
-        k = rng.choice(list(bv) or KEYS) if rng.random() < 0.6 else rng.choice(KEYS)
-        v = bv.get(k)
-        if isinstance(v, dict) and depth > 0 and rng.random() < 0.6:
-            out[k] = g_deep_case_sub(rng, v, depth - 1)
-        else:
-            out[k] = g_json(rng, 2)
+    for k in rng.sample(keys, rng.randrange(1, 4)):
+        out[k] = g_nested(rng, depth - 1, keys) if depth > 0 and rng.random() < 0.6 else g_json(rng, 1, keys)
     return out
+
+
+def g_perturb(rng, res, depth):
+    """an overlay VALUE derived from `res`: same keys with maps merged deeper / replaced, plus new keys"""
+    out = {}
+    for k, v in res.items():
+        if rng.random() < 0.55:
+            if isinstance(v, dict) and rng.random() < 0.7:
+                out[k] = g_perturb(rng, v, depth - 1)
+            else:
+                out[k] = rng.choice([g_json(rng, 2), {}, g_nested(rng, 1)])
+    if rng.random() < 0.5:
+        out[rng.choice(KEYS)] = g_json(rng, 2)
+    return out
+
+
+def g_deep_case(rng):
+    res = g_nested(rng, rng.choice([1, 2, 3, 4])) if rng.random() < 0.7 else g_map(rng, 4, KEYS, 4)
+    return {"kind": "deep", "resource": res, "overlay": g_perturb(rng, res, 4)}
 
 
 def g_svf(rng, outer_env_inputs, base):
@@ -1133,15 +1157,15 @@ def gen_cases(ctx: Ctx):
     for c in corpus_cases("C12"):
         yield c
     yield from fixed_cases()
-    yield from shape_cases(5 if ctx.quick() else 7)
+    yield from shape_cases(6 if ctx.quick() else 8)
     q = ctx.quick()
-    for _ in range(500 if q else 6000):
+    for _ in range(1500 if q else 20000):
         yield g_ov_case(ctx.rng)
-    for _ in range(150 if q else 2000):
+    for _ in range(500 if q else 6000):
         yield g_deep_case(ctx.rng)
-    for _ in range(150 if q else 2000):
+    for _ in range(500 if q else 6000):
         yield g_vf_case(ctx.rng)
-    for _ in range(250 if q else 3000):
+    for _ in range(800 if q else 10000):
         yield g_rf_case(ctx.rng)
 
 
@@ -1172,8 +1196,39 @@ def check_one(ctx: Ctx, case):
     return got, coq
 
 
-def shrink(case, runf, oracle, sig):
-    """greedy structural shrinking: drop overlay entries / steps / base keys while the same failure remains"""
+def _is_pairs(x):
+    return isinstance(x, list) and x and all(isinstance(e, list) and len(e) == 2 and isinstance(e[0], str) for e in x)
+
+
+def _deletions(node, path=()):
+    """paths (tuples of keys/indices) of elements that may be deleted: entries of overlay documents
+    (lists of [key, doc] pairs), steps, and keys of plain JSON data"""
+    if isinstance(node, dict):
+        for k, v in node.items():
+            if path and path[0] in ("base", "resource", "overlay", "value_base", "templates", "env", "inputs"):
+                if len(path) >= 1 and not (path[0] == "env" and len(path) == 1) and not (path[0] == "templates" and len(path) == 1):
+                    yield path + (k,)
+            yield from _deletions(v, path + (k,))
+    elif isinstance(node, list):
+        if _is_pairs(node) or (path and path[-1] == "steps"):
+            for i in range(len(node)):
+                yield path + (i,)
+        for i, v in enumerate(node):
+            yield from _deletions(v, path + (i,))
+
+
+def _delete(case, path):
+    c = copy.deepcopy(case)
+    node = c
+    for k in path[:-1]:
+        node = node[k]
+    del node[path[-1]]
+    return c
+
+
+def shrink(case, runf, oracle, sig, budget=300):
+    """greedy structural shrinking: delete overlay entries (at any depth), steps and data keys while
+    the same failure (same signature) remains"""
     def fails(c):
         try:
             b = oracle(c, runf(c))
@@ -1182,27 +1237,20 @@ def shrink(case, runf, oracle, sig):
             return False
 
     cur = copy.deepcopy(case)
-    for _ in range(3):
+    progressed = True
+    while progressed and budget > 0:
         progressed = False
-        for field in ("spec", "steps", "create"):
-            if isinstance(cur.get(field), list):
-                i = 0
-                while i < len(cur[field]):
-                    cand = copy.deepcopy(cur)
-                    del cand[field][i]
-                    if (field != "spec" or cand[field]) and fails(cand):
-                        cur, progressed = cand, True
-                    else:
-                        i += 1
-        for field in ("base", "resource", "overlay", "value_base"):
-            if isinstance(cur.get(field), dict):
-                for k in list(cur[field]):
-                    cand = copy.deepcopy(cur)
-                    del cand[field][k]
-                    if fails(cand):
-                        cur, progressed = cand, True
-        if not progressed:
-            break
+        for path in sorted(_deletions(cur), key=lambda p: (len(p), str(p))):
+            if budget <= 0:
+                break
+            try:
+                cand = _delete(cur, path)
+            except Exception:  # noqa: BLE001
+                continue
+            budget -= 1
+            if fails(cand):
+                cur, progressed = cand, True
+                break
     return cur
 
 
